@@ -63,7 +63,7 @@ type nbtDecEv struct {
 // nbtUsedDoc is what "-used" destinations decoded before: a compound with a list, a string and an int array
 var nbtUsedDoc = []byte{10, 0, 0, 9, 0, 1, 'l', 1, 0, 0, 0, 3, 7, 8, 9, 8, 0, 1, 's', 0, 5, 's', 't', 'a', 'l', 'e', 11, 0, 1, 'i', 0, 0, 0, 1, 0, 0, 0, 42, 0}
 
-var nbtTargets = []string{"any", "any-plain", "map", "raw", "dynbt", "snbt", "rawstring", "skip", "field", "raw-unmarshal", "any-strict", "raw-used", "dynbt-used", "snbt-used"}
+var nbtTargets = []string{"any", "any-plain", "map", "raw", "dynbt", "snbt", "rawstring", "skip", "field", "raw-unmarshal", "any-strict", "raw-used", "dynbt-used", "snbt-used", "slice-dynbt", "slice-dynbt-ptr", "slice-raw"}
 
 type skipAll struct {
 	Zzz int32 `nbt:"zzz-not-present"`
@@ -144,6 +144,30 @@ func nbtDecode(fmtName string, input []byte, target string, class string) (ev nb
 				if err == nil {
 					ev.Nodes = countAny(v)
 					ev.Tree, ev.Exact = projectAny(v), true
+				}
+			case "slice-dynbt": // typed slices of carriers (a root list): the elements are handed to the carrier one by one
+				var v []dynbt.Value
+				name, err = mk().Decode(&v)
+				if err == nil {
+					ev.Nodes = 1
+					for i := range v {
+						ev.Nodes += countDynbt(&v[i])
+					}
+				}
+			case "slice-dynbt-ptr":
+				var v []*dynbt.Value
+				name, err = mk().Decode(&v)
+				if err == nil {
+					ev.Nodes = 1
+					for _, e := range v {
+						ev.Nodes += countDynbt(e)
+					}
+				}
+			case "slice-raw":
+				var v []nbt.RawMessage
+				name, err = mk().Decode(&v)
+				if err == nil {
+					ev.Nodes = 1 + len(v)
 				}
 			case "any-strict": // DisallowUnknownFields has nothing to refuse in an interface destination: same result
 				var v any
